@@ -61,20 +61,59 @@ impl SynInput {
     }
 }
 
-#[derive(Clone, Debug, PartialEq, Eq)]
+#[derive(Clone, Debug)]
 pub enum Tree {
     Term { tidx: u32, start: usize, end: usize, faulty: bool },
     Nonterm { ridx: u32, kids: Vec<Tree> },
 }
 
+// Trees can be tens of thousands of levels deep (a parse that inserts lexemes at one position until
+// its budget runs out nests one level per insertion): comparison, traversal and drop are iterative.
+impl PartialEq for Tree {
+    fn eq(&self, other: &Tree) -> bool {
+        let mut work: Vec<(&Tree, &Tree)> = vec![(self, other)];
+        while let Some((a, b)) = work.pop() {
+            match (a, b) {
+                (Tree::Term { tidx: t1, start: s1, end: e1, faulty: f1 }, Tree::Term { tidx: t2, start: s2, end: e2, faulty: f2 }) => {
+                    if (t1, s1, e1, f1) != (t2, s2, e2, f2) {
+                        return false;
+                    }
+                }
+                (Tree::Nonterm { ridx: r1, kids: k1 }, Tree::Nonterm { ridx: r2, kids: k2 }) => {
+                    if r1 != r2 || k1.len() != k2.len() {
+                        return false;
+                    }
+                    work.extend(k1.iter().zip(k2.iter()));
+                }
+                _ => return false,
+            }
+        }
+        true
+    }
+}
+impl Eq for Tree {}
+
+impl Drop for Tree {
+    fn drop(&mut self) {
+        let mut work: Vec<Tree> = vec![];
+        if let Tree::Nonterm { kids, .. } = self {
+            work.append(kids);
+        }
+        while let Some(mut t) = work.pop() {
+            if let Tree::Nonterm { kids, .. } = &mut t {
+                work.append(kids);
+            }
+        }
+    }
+}
+
 impl Tree {
     pub fn leaves<'a>(&'a self, out: &mut Vec<&'a Tree>) {
-        match self {
-            Tree::Term { .. } => out.push(self),
-            Tree::Nonterm { kids, .. } => {
-                for k in kids {
-                    k.leaves(out);
-                }
+        let mut work: Vec<&'a Tree> = vec![self];
+        while let Some(t) = work.pop() {
+            match t {
+                Tree::Term { .. } => out.push(t),
+                Tree::Nonterm { kids, .. } => work.extend(kids.iter().rev()),
             }
         }
     }
